@@ -159,6 +159,8 @@ def model_compare(model, c, gradp, reactions, floor, iimg):
                 want = genchk.expected_box(c, lv, b, False, False, True)
                 floored.append([np.asarray(want[..., 4 + s], dtype='<f8').tobytes(order='F') for s in range(ns)])
         boxes = [[list(lo), list(hi)] for lo, hi in lev['boxes']]
+        if sum(len(c) for _, c in subs['state'][0]) > 250000:
+            continue      # the list-based model is quadratic in the file size: large levels are checked by the oracle only
         st, m = model.call('chk2plt_level', [boxes, subs['state'][0], subs['state'][1], subs['gradp'][0], subs['gradp'][1],
                                              subs['I_R'][0], subs['I_R'][1], 1 if gradp else 0, 1 if reactions else 0,
                                              [floored] if floor else [], 4, ns])
